@@ -77,6 +77,14 @@ def ops_of(e, acc=None):
     return acc
 
 
+def count_subtypes(L, e):
+    """number of subtype filters in e, variables expanded"""
+    n = 1 if e[0] == "s" else 0
+    if e[0] == "v":
+        n += max([count_subtypes(L, body) for (U, v), body in L.vars.items() if v == e[1]] or [0])
+    return n + sum(count_subtypes(L, x) for x in e[1:] if isinstance(x, list))
+
+
 def step_name(e):
     """the attack step an expression names: the right-most leaf of the collect spine"""
     if e[0] == "a": return e[1]
@@ -344,10 +352,11 @@ class Real:
     the generated classes (LanguageClassesFactory, ~10 ms) are cached per process, keyed by the asset types,
     associations and defenses of the language (they are a function of nothing else)."""
 
-    def __init__(self, lang, mrec, nav_budget=2000):
+    def __init__(self, lang, mrec, nav_budget=2000, mv=None):
         from maltoolbox.language import LanguageGraph, LanguageClassesFactory
         self.lang = lang
         self.nav_budget = nav_budget
+        self.mv = mv            # reference view: only consulted to decide whether a second, larger budget is due
         self.build_error = None
         self.model = None
         self.objs = []
@@ -390,19 +399,23 @@ class Real:
             raise LookupError("object returned by the library is not an asset of the model")
         return k
 
-    def eval(self, e, X):
+    def eval(self, e, X, budget=None):
         """real evaluator on compact expression e from the assets X (a set of indexes -> sorted list, or an explicit
         list, possibly with duplicates).  -> (status, frozenset idx | exception | None, step name,
         length of the returned list, returned list as indexes); memoised per case"""
         from maltoolbox.attackgraph.attackgraph import _process_step_expression
         xs = list(X) if isinstance(X, (list, tuple)) else sorted(X)
-        key = (json.dumps(e), tuple(xs))
+        key = (json.dumps(e), tuple(xs), budget)
         if key in self._memo:
             return self._memo[key]
         spec = to_spec(e)
         targets = [self.objs[k] for k in xs]
-        st, val = guarded(self.model, lambda: _process_step_expression(self.lg, self.model, targets, spec),
-                          self.nav_budget)
+        run = lambda: _process_step_expression(self.lg, self.model, list(targets), spec)
+        st, val = guarded(self.model, run, budget or self.nav_budget)
+        if st == "budget" and budget is None and self.mv is not None and \
+                not closure_over_cycle_possible(self.mv, e):
+            # expensive, not (yet) non-terminating: one more attempt with a far larger budget
+            st, val = guarded(self.model, run, self.nav_budget * BIG)
         if st != "ok":
             out = (st, val, None, 0, ())
         else:
@@ -412,9 +425,9 @@ class Real:
         self._memo[key] = out
         return out
 
-    def generate(self):
+    def generate(self, budget=None):
         from maltoolbox.attackgraph import AttackGraph
-        return guarded(self.model, lambda: AttackGraph(self.lg, self.model), self.nav_budget)
+        return guarded(self.model, lambda: AttackGraph(self.lg, self.model), budget or self.nav_budget)
 
 
 # =====================================================================================================
@@ -456,6 +469,15 @@ def cyclic_trans(mv, e, X):
             if c: return c
         return None
     return cyclic_trans(mv, e[1], X) or cyclic_trans(mv, e[2], X)
+
+
+def closure_over_cycle_possible(mv, e):
+    """some transitive operator of e (variables expanded) works on a field whose links contain a cycle"""
+    everything = frozenset(range(mv.n))
+    return any(mv.cyclic_from(f, everything) for f in trans_fields(mv.lang, e))
+
+
+BIG = 25          # factor on the navigation budget for the second attempt of an evaluation without closure over a cycle
 
 
 def nonterm_blame(real, mv, e, X, st, val):
